@@ -169,7 +169,7 @@ func mkSchedule0(rng *rand.Rand, reply []byte, kind string, E int) (xport.Script
 		}
 	}
 	s := xport.Script{Reply: reply, Steps: steps, Tail: "deadline"}
-	f := []string{"eof", "eof-with-bytes", "inject", "inject-with-bytes", "stall", "cancel", "write"}[rng.Intn(7)]
+	f := []string{"eof", "eof-with-bytes", "inject", "inject-with-bytes", "stall", "cancel", "write", "flood"}[rng.Intn(8)]
 	switch f {
 	case "eof":
 		s.Tail = "eof"
@@ -184,6 +184,10 @@ func mkSchedule0(rng *rand.Rand, reply []byte, kind string, E int) (xport.Script
 		s.CancelAtRead = len(s.Steps) + 1 + rng.Intn(2)
 	case "write":
 		s.WriteErr = true
+	case "flood":
+		// a babbling device: one read fills whatever buffer the client offers (more than a Modbus frame can hold)
+		s.Reply = append(append([]byte{}, reply[:p]...), libx.RandBytes(rng, 600)...)
+		s.Steps = append(s.Steps, xport.ReadStep{N: 600})
 	}
 	return s, fmt.Sprintf("%s@%d", f, p)
 }
